@@ -5,8 +5,9 @@ import framework as fw
 import cp_common as cp
 
 ID = "C08"
-COQ_IMPORTS = ["From HTA.lib Require Import Dag.", "From HTA.model Require Import C08_Model."]
+COQ_IMPORTS = ["From HTA.lib Require Import Dag.", "From HTA.model Require Import C08_Model C08_Host."]
 SOURCES = cp.SOURCES
+ASSUMPTIONS_HOST = "the depth-first traversal order is taken from the implementation's CallStackGraph.dfs_traverse; its well-formedness (wf_actions) is decided in Coq on every case"
 N_CASES = {"quick": 250, "thorough": 4000}
 RULE = ("generated causally consistent well-formed file sets (device work starts no earlier than its launch call; every synchronising call returns after the work it "
         "waits for; FIFO kernels on 1-3 streams; cudaDeviceSynchronize / cudaStreamSynchronize with Context / Stream Sync records; missing and orphan kernels; "
@@ -15,7 +16,7 @@ RULE = ("generated causally consistent well-formed file sets (device work starts
         "without CRITICAL_PATH_ADD_ZERO_WEIGHT_LAUNCH_EDGE; the graph the analysis returns is judged by the verified checker check_C08 evaluated in Coq: node "
         "bijection, every edge forward in time with the weight its type prescribes, launch / kernel-kernel / sync edges joining what they stand for, acyclicity by a "
         "rank witness; non-trivial = the graph has edges of at least four types; distinct = hash of file set and parameters")
-ASSUMPTIONS = ["causally consistent traces (quantifier); kernels of one stream do not overlap (the generator's FIFO placement)",
+ASSUMPTIONS = [ASSUMPTIONS_HOST, "causally consistent traces (quantifier); kernels of one stream do not overlap (the generator's FIFO placement)",
                "event-record / stream-wait-event synchronisation is generated (every fifth case), but under pandas 3 the builder attaches no edge to it (Series.fillna(inplace=True) on a column attribute is a no-op under copy-on-write, so the previous-launch look-up stays empty): the check confirms the analysis succeeds and every edge present is legal; no clause of the property demands the presence of an edge",
                "the topological order used as rank witness is networkx's; it is only a hint: the ranks are checked in Coq (Dag.rank_okb)"]
 TY = {"OPERATOR_KERNEL": 0, "DEPENDENCY": 1, "KERNEL_LAUNCH_DELAY": 2, "KERNEL_KERNEL_DELAY": 3, "SYNC_DEPENDENCY": 4}
@@ -55,6 +56,10 @@ def run_impl(case, d):
     res, ta, g = cp.run_cp(case, d, zero_weight_env=case["params"]["zw"])
     if "graph" in res:
         res["order"] = topo_order(res["graph"])
+        try:
+            res["traversal"] = cp.dump_host_traversal(ta, res["rank"])
+        except Exception as e:
+            res["traversal_error"] = type(e).__name__ + ": " + str(e)[:200]
     return res
 
 
@@ -75,7 +80,21 @@ def coq_term(case, impl):
     if "graph" not in impl:
         return "[false]"
     g = impl["graph"]
-    return f"check_C08 {fw.b(impl['zero_weight_env'])} {clipped_lit(impl)} {nodes_lit(g)} {edges_lit(g)} {fw.zl(impl['order'])}"
+    return f"(check_C08 {fw.b(impl['zero_weight_env'])} {clipped_lit(impl)} {nodes_lit(g)} {edges_lit(g)} {fw.zl(impl['order'])}, {host_term(impl)})"
+
+
+def host_term(impl):
+    """the host-side builder model (coq/model/C08_Host.v) applied to the traversal of every host thread"""
+    if "traversal" not in impl:
+        return "[]"
+    threads, _ = cp.host_model_inputs(impl)
+    t0 = min([r["ts"] for r in impl["rows"]] + [0])
+    parts = []
+    for tab, acts in threads:
+        tl = "[" + "; ".join(f"mkH {fw.z(i)} {fw.z(a)} {fw.z(b)} {fw.b(an)} {fw.b(bl)} {fw.z(par)}" for i, a, b, an, bl, par in tab) + "]"
+        al = "[" + "; ".join(("Enter " if e else "Exit ") + fw.z(i) for e, i in acts) + "]"
+        parts.append(f"encode_host {tl} {al} {fw.z(t0)}")
+    return "[" + ";\n   ".join(parts) + "]"
 
 
 def compare(case, impl, model):
@@ -91,10 +110,37 @@ def compare(case, impl, model):
     for e in g["edges"]:
         if [e[0], e[1]] != e[5]:
             disc.append(f"edge object {e[5]} stored on graph edge ({e[0]}, {e[1]})")
-    for ok, what in zip(model, CHECKS):
+    checks, host = model[:len(CHECKS)], model[len(CHECKS):]
+    if len(model) == 2 and isinstance(model[0], list):
+        checks, host = model[0], model[1]
+    for ok, what in zip(checks, CHECKS):
         if not ok:
             disc.append(f"check_C08 rejects the graph: {what} {w}")
+    disc += compare_host(impl, host, w)
     return disc[:6]
+
+
+def compare_host(impl, host, w):
+    """host-to-host edges (operator spans and dependencies, with their attribution) of the real graph against the host-side model"""
+    if "traversal_error" in impl:
+        return [f"harness: could not record the call-stack traversal: {impl['traversal_error']} {w}"]
+    if "traversal" not in impl:
+        return []
+    _, impl_edges = cp.host_model_inputs(impl)
+    disc = []
+    model_edges = []
+    for k, th in enumerate(host):
+        wf, edges = th[0], th[1]
+        if not wf:
+            disc.append(f"host thread {k}: the call-stack traversal is not a depth-first visit of properly nested events in time order (wf_actions = false) {w}")
+        model_edges += [list(e) for e in edges]
+    model_edges.sort()
+    if model_edges != impl_edges:
+        only_i = [e for e in impl_edges if e not in model_edges][:3]
+        only_m = [e for e in model_edges if e not in impl_edges][:3]
+        disc.append(f"host-side edges differ from the model of _construct_graph_from_call_stack: only in the graph {only_i}; only in the model {only_m} "
+                    f"as (event, is_start, event, is_start, weight, type, attributed event) {w}")
+    return disc
 
 
 def nontrivial(case, impl):
@@ -111,7 +157,11 @@ def classify(case, impl, model, disc):
 LEVEL_TEXT = ("Proof (verified checker): C08_check_sound: a graph accepted by check_C08 has exactly one start and one end node per analysed event carrying its times, "
               "every edge points forward in time with a non-negative weight equal to the time difference or zero as its type prescribes, launch-delay / "
               "kernel-to-kernel / synchronisation edges join what they stand for, and (Dag.acyclic) no path returns to its start. The checker is evaluated in "
-              "Coq on the graph critical_path_analysis returns for every generated window; the builder itself is not modelled (partial).")
+              "Coq on the graph critical_path_analysis returns for every generated window. Host side additionally by proof about the builder itself: "
+              "C08_host_edges_forward_nonneg: the enter / exit state machine of _construct_graph_from_call_stack (coq/model/C08_Host.v), run over ANY depth-first "
+              "traversal of properly nested events in time order, emits only forward, non-negative edges weighing the time difference (or zero for dependencies "
+              "and blocking calls); its edges and attributions are compared with the real graph's host-to-host edges on every case. The device-side builder "
+              "(_construct_graph_from_kernels) is not modelled (partial).")
 LEVEL_NOTE = ("Translation-validation style: the theorem is about the checker, the tie to the code is the per-run evaluation of the checker on the real graph. "
               "Event-record / stream-wait synchronisation is generated but attaches no edge under pandas 3 (see assumptions), so the event-sync edge rules are exercised only vacuously. networkx's topological order is an unchecked hint for the checked rank witness.")
-TECHNIQUE = "Coq-verified checker (reflection of the property's clauses; acyclicity by rank function) evaluated by vm_compute on every real graph"
+TECHNIQUE = "Coq-verified checker (reflection of the property's clauses; acyclicity by rank function) evaluated by vm_compute on every real graph + Gallina model of the host-side builder (state-machine invariant proof) in differential correspondence"
